@@ -416,6 +416,7 @@ class SqlDB:
         self.durable = {}
         self.initial = {}  # state when first seen (after DDL)
         self.in_txn = False
+        self.autocommit = False  # sqlite3.connect(..., isolation_level=None)
         self.facts = Facts(I.ctx)
         self.closed = False
         self.log = []  # ghost: ("dml", kind, table) | ("commit", snapshot) | ("ddl", table)
@@ -461,6 +462,8 @@ class SqlDB:
         self.log.append(("dml", kind, table))
 
     def commit(self):
+        if self.autocommit:
+            return  # nothing is pending in autocommit mode
         self.durable = dict(self.pending)
         self.in_txn = False
         self.log.append(("commit", dict(self.pending)))
@@ -655,7 +658,18 @@ class SqlCursor:
         self.db = conn.db
         self.result = None
         self.lastrowid = None
+        self.rowcount = -1
         self.closed = False
+
+    def count_rows(self, I, tab, match):
+        """cursor.rowcount of an UPDATE / DELETE: 0 iff no row matches, else > 0 with a witness row."""
+        rc = z3.Int(I.ctx.fresh_name("rowcount"))
+        I.ctx.assume(SBool(rc >= 0))
+        w = tuple(z3.Const(I.ctx.fresh_name(f"hit.{c}"), _sort(tab.coltype(c))) for c in tab.pk)
+        I.ctx.assume(SBool(z3.Implies(rc > 0, match(w))))
+        self.db.facts.add_key(tab.name, w)
+        self.db.facts.add_unary(tab.name, lambda k: z3.Implies(rc == 0, z3.Not(match(k))))
+        self.rowcount = rc
 
     # -- engine protocol ------------------------------------------------------------------------
     def vget(self, I, name):
@@ -663,6 +677,8 @@ class SqlCursor:
             return Builtin("cursor.execute", lambda I_, a, k: self.execute(I_, *a))
         if name == "lastrowid":
             return self.lastrowid
+        if name == "rowcount":
+            return self.rowcount if isinstance(self.rowcount, int) else SInt(self.rowcount)
         if name == "close":
             return Builtin("cursor.close", lambda I_, a, k: setattr(self, "closed", True))
         raise Outside(f"sqlite3 cursor attribute {name}")
@@ -900,6 +916,7 @@ def execute(self, I, sql, params=None):
         db.pending[tab.name] = tab.with_(present=lambda k: z3.Or(keys_eq(k, key), oldp(k)), cols=newcols,
                                          autoinc=new_autoinc, maxrowid=maxrowid)
         self.lastrowid = SInt(key[0]) if len(key) == 1 else SInt(db.pending[tab.name].maxrowid)
+        self.rowcount = 1
         return self
     if st["kind"] == "update":
         pred = where_pred(I, tab, st["where"], ps)
@@ -913,6 +930,7 @@ def execute(self, I, sql, params=None):
             newcols[c] = (lambda old, v_: (lambda k: z3.If(z3.And(tab.present(k), pred(k)), v_, old(k))))(tab.cols[c], v)
         db.begin_dml("update", tab.name)
         db.pending[tab.name] = tab.with_(cols=newcols)
+        self.count_rows(I, tab, lambda k: z3.And(tab.present(k), pred(k)))
         # keys named by equality conditions on the whole primary key are interesting instances
         kk = {c: v for (c, op, v) in st["where"] if op == "="}
         if all(c in kk for c in tab.pk):
@@ -923,11 +941,26 @@ def execute(self, I, sql, params=None):
         db.begin_dml("delete", tab.name)
         oldp = tab.present
         db.pending[tab.name] = tab.with_(present=lambda k: z3.And(oldp(k), z3.Not(pred(k))))
+        self.count_rows(I, tab, lambda k: z3.And(oldp(k), pred(k)))
         return self
     raise Outside("SQL statement kind")
 
 
-SqlCursor.execute = execute
+def execute_stmt(self, I, sql, params=None):
+    db = self.db
+    n0 = len(db.log)
+    self.rowcount = -1
+    r = execute(self, I, sql, params)
+    dml = [e for e in db.log[n0:] if e[0] == "dml"]
+    if dml and db.autocommit:
+        # isolation_level=None: no implicit transaction, every statement is durable on its own
+        db.durable = dict(db.pending)
+        db.in_txn = False
+        db.log.append(("commit", dict(db.pending)))
+    return r
+
+
+SqlCursor.execute = execute_stmt
 
 
 def connect(I, db):
